@@ -167,6 +167,10 @@ def mk_option_equivalence(name, amino_acids_only=True):
         d0 = M.run(M.text(name))
         k0 = M.run(with_hydrogens_text(name), args=['--keep-protons'])
         M.compare_results(ctx, 'keep-protons-own-hydrogens(same frame)', d0, k0)
+        # the supplied hydrogens are perceived as the program built them: each bonded to its one parent atom
+        hb, hk = M.hydrogens(d0), M.hydrogens(k0)
+        par = lambda m: sorted((M.akey(a), sorted(M.akey(x) for x in a.bonded_atoms)) for a in m.conformations['1A'].atoms if a.element == 'H')
+        ctx.claim('keep-protons:hydrogen-bonding-as-built', par(d0) == par(k0), detail='differs for %r' % ([x for x in par(k0) if x not in par(d0)][:3],))
     return body
 
 
@@ -186,8 +190,8 @@ def obligations(tier):
                           bounds='one ATOM line; every character of columns 7-11 (decimal / upper / lower hybrid-36 serials), 12, 21, 28-30, 55-66 and 67-80 symbolic',
                           claim_doc='name, coordinates, residue number/name, chain, type, insertion code, element, residue_label are concrete and equal to the reference',
                           max_paths=20000))
-    for name in (['tri_HIS', 'tri_ARG', 'tri_ASN', 'pair_GLU_ARG_TYR'] if tier == 'quick' else
-                 ['tri_HIS', 'tri_ARG', 'tri_ASN', 'tri_GLN', 'tri_TRP', 'tri_ASP', 'tri_LYS', 'tri_TYR', 'tri_SER', 'tri_PRO', 'pep8', 'pair_GLU_ARG_TYR', 'pair_ASP_ARG', 'pair_LYS_ASP', 'cterm_PHE']):
+    for name in (['tri_HIS', 'tri_ARG', 'tri_ASN', 'pair_GLU_ARG_TYR', 'pep_close_hydrogens'] if tier == 'quick' else
+                 ['pep_close_hydrogens', 'tri_HIS', 'tri_ARG', 'tri_ASN', 'tri_GLN', 'tri_TRP', 'tri_ASP', 'tri_LYS', 'tri_TYR', 'tri_SER', 'tri_PRO', 'pep8', 'pair_GLU_ARG_TYR', 'pair_ASP_ARG', 'pair_LYS_ASP', 'cterm_PHE']):
         obs.append(Obligation('O3-protonate-all-and-keep-protons[%s]' % name, mk_option_equivalence(name),
                               code=['propka/hydrogens.py:setup_bonding_and_protonation', 'propka/protonate.py:Protonate.protonate', 'propka/protonate.py:Protonate.protonate_atom',
                                     'propka/input.py:get_atom_lines_from_pdb (keep_protons)', 'propka/run.py:single (whole pipeline)'],
